@@ -574,6 +574,7 @@ func runFrame(fr *frame) {
 				if p := instr.Pos(); p != token.NoPos {
 					cur.curPos = p
 				}
+				cur.curFn = fr.fn
 			}
 			if visitInstr(fr, instr) == kReturn {
 				return
